@@ -55,6 +55,9 @@ TEMPLATES = {
     "droplic": ("droplic.jinja2", "{% for copyright_line in copyright_lines %}\n{{ copyright_line }}\n{% endfor %}\n"),
     "dropcop": ("dropcop.jinja2", "{% for expression in spdx_expressions %}\nSPDX-License-Identifier: {{ expression }}\n{% endfor %}\n"),
     "dropboth": ("dropboth.jinja2", "Nothing but prose here.\n"),
+    # loses the licences through a misspelt variable name (undefined names render as nothing)
+    "misspelt": ("misspelt.jinja2", "{% for copyright_line in copyright_lines %}\n{{ copyright_line }}\n{% endfor %}\n"
+                 "{% for expression in spdx_expresions %}\nSPDX-License-Identifier: {{ expression }}\n{% endfor %}\n"),
     # a template with a tag of its own: what it renders is more than what was requested
     "fixedtag": ("fixedtag.jinja2",
                  "SPDX-FileCopyrightText: 2015 ACME Template Corp\n{% for copyright_line in copyright_lines %}\n{{ copyright_line }}\n{% endfor %}\n\n"
